@@ -205,7 +205,7 @@ class TabWorld:
                                   fmt=fmt, kind="write", buffered=False)
         self.kinds.add(("write", fmt))
 
-    def op_parquet_direct(self, table, columns, types, rows, row_group_size):
+    def op_parquet_direct(self, table, columns, types, rows, row_group_size, dict_strings=False):
         import pyarrow as pa
         import pyarrow.parquet as pq
 
@@ -214,6 +214,12 @@ class TabWorld:
         path = self._path(table, "parquet")
         df = self._df(columns, types, rows)
         tbl = pa.Table.from_pandas(df, preserve_index=False, schema=pa.schema(list(zip(columns, self._pa_types(types)))))
+        if dict_strings:
+            # string columns stored dictionary-typed (what pandas writes for a Categorical column)
+            for i, t in enumerate(types):
+                if t == "str":
+                    tbl = tbl.set_column(i, columns[i], tbl.column(i).dictionary_encode())
+                    self.stats["dictionary_typed_parquet"] = 1
         pq.write_table(tbl, path, row_group_size=max(1, int(row_group_size)))
         self.tables[table] = {"path": path, "fmt": "parquet", "columns": list(columns), "types": list(types),
                               "rows": [list(r) for r in rows], "writer": None, "kind": "direct", "buffer_size": 0,
